@@ -185,6 +185,29 @@ func TestZZVerifC05(t *testing.T) {
 			for i := 0; i < n; i++ {
 				ops = append(ops, g.TxnOp(scratch.r.State(), idx+1))
 			}
+			// idempotent rewrites: every 4th list also writes existing keys again with exactly their stored
+			// content (set, cas at the current index, re-acquisition by the holder): the store skips such a
+			// write, the result must still be the stored entry
+			if li%4 == 1 {
+				if _, ents, err := scratch.r.State().KVSList(nil, "", nil); err == nil {
+					for k := 0; k < 3 && len(ents) > 0; k++ {
+						e := ents[wr.Intn(len(ents))]
+						d := structs.DirEntry{Key: e.Key, Value: append([]byte{}, e.Value...), Flags: e.Flags}
+						switch {
+						case e.Session != "" && wr.Chance(60):
+							d.Session = e.Session
+							ops = append(ops, &structs.TxnOp{KV: &structs.TxnKVOp{Verb: api.KVLock, DirEnt: d}})
+						case wr.Chance(40):
+							d.ModifyIndex = e.ModifyIndex
+							ops = append(ops, &structs.TxnOp{KV: &structs.TxnKVOp{Verb: api.KVCAS, DirEnt: d}})
+						default:
+							ops = append(ops, &structs.TxnOp{KV: &structs.TxnKVOp{Verb: api.KVSet, DirEnt: d}})
+						}
+						run.Count("idempotent_rewrite_ops_generated")
+					}
+					n = len(ops)
+				}
+			}
 			// "operations see the effects of earlier operations in the same transaction": read back what
 			// the list itself wrote (point reads and a listing of the enclosing prefix)
 			nrb := 0
@@ -310,6 +333,24 @@ func TestZZVerifC05(t *testing.T) {
 							break
 						}
 						twinResults = append(twinResults, r.Results...)
+						// "returns their results": the entry a write verb reports is the entry the store now holds
+						// (the operation was applied alone, so nothing else touched the key)
+						if op.KV != nil && (op.KV.Verb == api.KVSet || op.KV.Verb == api.KVCAS || op.KV.Verb == api.KVLock || op.KV.Verb == api.KVUnlock) {
+							for _, res := range r.Results {
+								if res.KV == nil {
+									continue
+								}
+								run.Count("write_results_compared_with_stored_entry")
+								_, e, err := b.r.State().KVSGet(nil, res.KV.Key, &res.KV.EnterpriseMeta)
+								if err != nil || e == nil {
+									run.Violation("C05:commit:result-of-write-without-stored-entry:"+classOf(op), fmt.Sprintf("operation %s returned an entry for key %q but the store holds none", classOf(op), res.KV.Key), wit())
+									continue
+								}
+								if e.ModifyIndex != res.KV.ModifyIndex || e.CreateIndex != res.KV.CreateIndex || e.LockIndex != res.KV.LockIndex || e.Session != res.KV.Session || e.Flags != res.KV.Flags {
+									run.Violation("C05:commit:result-differs-from-stored-entry:"+classOf(op), fmt.Sprintf("operation %s on key %q returned create/modify/lock index %d/%d/%d session %q flags %d but the store holds %d/%d/%d session %q flags %d", classOf(op), res.KV.Key, res.KV.CreateIndex, res.KV.ModifyIndex, res.KV.LockIndex, res.KV.Session, res.KV.Flags, e.CreateIndex, e.ModifyIndex, e.LockIndex, e.Session, e.Flags), wit())
+								}
+							}
+						}
 					}
 					if !twinFailed {
 						if ra, rb := dump.Render(resp.Results), dump.Render(twinResults); ra != rb && (len(resp.Results) > 0 || len(twinResults) > 0) {
@@ -493,6 +534,13 @@ func guardMustFail(s *state.Store, op *structs.TxnOp) (bool, string) {
 			cur = e.ModifyIndex
 		}
 		return casRule("check", e != nil, cur, op.Check.Check.ModifyIndex, op.Check.Verb == api.CheckDeleteCAS)
+	}
+	if op.Session != nil && op.Session.Verb == api.SessionDelete {
+		_, sess, err := s.SessionGet(nil, op.Session.Session.ID, &op.Session.Session.EnterpriseMeta)
+		if err == nil && sess == nil {
+			return true, "the session to delete does not exist"
+		}
+		return false, ""
 	}
 	if op.KV == nil {
 		return false, ""
